@@ -46,3 +46,196 @@ Proof.
   rewrite Hl. replace (4 + len body <? 4) with false by lia.
   rewrite fixed32_roundtrip by exact H. rewrite (drop_app_len _ _ 4 Hl). reflexivity.
 Qed.
+
+(* ==== the wrappers around the libraries ================================================= *)
+Require Import ZifyBool ZifyN.
+Ltac Zify.zify_post_hook ::= Z.div_mod_to_equations.
+
+(* Library contracts.  [libs_sound]: whatever a compressor returns fits the capacity it was
+   given and is inverted by the matching decompressor when that is offered exactly the original
+   size (zstd and snappy also report that size).  For zlib, inflate(Z_FINISH) ends the stream as
+   soon as the output space offered so far holds the whole output and reports Z_BUF_ERROR before. *)
+Record libs_sound (L : libs) : Prop := {
+  snd_lz4 : forall x cap z, lz4_c L x cap = Some z -> len z <= cap /\ lz4_d L z (len x) = Some x;
+  snd_lz4hc : forall x cap l z, lz4hc_c L x cap l = Some z -> len z <= cap /\ lz4_d L z (len x) = Some x;
+  snd_zstd : forall x cap l z, zstd_c L x cap l = Some z ->
+             len z <= cap /\ zstd_size L z = Some (len x) /\ zstd_d L z (len x) = Some x;
+  snd_snappy : forall x cap z, snappy_c L x cap = Some z -> snappy_len L z = Some (len x) /\ snappy_d L z (len x) = Some x;
+  snd_zlib : forall x cap l z, zl_deflate L x cap l = Some z ->
+             forall c, zl_inflate L z c = if len x <=? c then IEnd x else IBuf;
+}.
+(* [libs_complete]: offered its documented bound as capacity, and a level in its legal range, a
+   compressor does not fail. *)
+Record libs_complete (L : libs) : Prop := {
+  cpl_lz4 : forall x cap, len x <= LZ4_MAX_INPUT_SIZE -> lz4_bound (len x) <= cap -> lz4_c L x cap <> None;
+  cpl_lz4hc : forall x cap l, len x <= LZ4_MAX_INPUT_SIZE -> lz4_bound (len x) <= cap -> lz4hc_c L x cap l <> None;   (* any level: LZ4_compress_HC maps levels below 1 to its default and levels above the maximum to the maximum *)
+  cpl_zstd_levels : (zstd_min L <= zstd_max L)%Z;
+  cpl_zstd : forall x cap l, (zstd_min L <= l <= zstd_max L)%Z -> zstd_bound (len x) <= cap -> zstd_c L x cap l <> None;
+  cpl_snappy : forall x cap, snappy_bound (len x) <= cap -> snappy_c L x cap <> None;
+  cpl_zl_init : forall l, (-1 <= l <= 9)%Z -> zl_init_ok L l = true;
+  cpl_zl : forall x cap l, (-1 <= l <= 9)%Z -> zl_bound L l (len x) <= cap -> zl_deflate L x cap l <> None;
+  cpl_zl_end : zl_end_ok L = true;
+}.
+
+Lemma len_fixed32 n : len (fixed_encode32 n) = 4.
+Proof. unfold fixed_encode32, len. rewrite le_encode_length. reflexivity. Qed.
+
+Lemma lz4_bound_le n : lz4_bound n + 4 <= INT_MAX.
+Proof.
+  unfold lz4_bound, LZ4_MAX_INPUT_SIZE, INT_MAX. destruct (2113929216 <? n) eqn:E; [lia|].
+  apply N.ltb_ge in E. assert (n / 255 <= 2113929216 / 255) by (apply N.div_le_mono; lia).
+  change (2113929216 / 255) with 8289918 in H. lia.
+Qed.
+
+Lemma zstd_capacity_ge n : zstd_bound n <= zstd_capacity n.
+Proof. unfold zstd_capacity. cbv zeta. destruct (zstd_bound n <? INT_MAX / 2); lia. Qed.
+Lemma zstd_capacity_le n : zstd_bound n <= INT_MAX -> zstd_capacity n <= INT_MAX.
+Proof.
+  unfold zstd_capacity, INT_MAX. cbv zeta. change (2147483647 / 2) with 1073741823.
+  intros H. destruct (zstd_bound n <? 1073741823) eqn:E; lia.
+Qed.
+
+Section WrapProofs.
+Variable L : libs.
+
+(* ---- soundness: a successful compression is inverted by the decompression wrapper ---------- *)
+Hypothesis Hs : libs_sound L.
+
+Lemma lz4_frame_roundtrip x z : len x <= INT_MAX -> len z <= lz4_bound (len x) -> lz4_d L z (len x) = Some x ->
+  decompress_lz4 L (lz4_wrap (len x) z) = COk x.
+Proof.
+  intros Hx Hz Hd. unfold decompress_lz4.
+  assert (Hlen : len (lz4_wrap (len x) z) = 4 + len z) by (unfold lz4_wrap; rewrite len_app, len_fixed32; reflexivity).
+  rewrite Hlen. pose proof (lz4_bound_le (len x)) as Hb.
+  replace (INT_MAX <? 4 + len z) with false by lia. replace (4 + len z <? 4) with false by lia. cbn [orb].
+  rewrite lz4_prefix_roundtrip by (unfold INT_MAX in Hx; change (2 ^ 32) with 4294967296; lia).
+  rewrite Hd. reflexivity.
+Qed.
+
+Lemma inflate_loop_ok x z : (forall c, zl_inflate L z c = if len x <=? c then IEnd x else IBuf) ->
+  forall fuel cap, len x <= cap * 2 ^ N.of_nat fuel -> 0 < cap -> inflate_loop L (S fuel) z cap = COk x.
+Proof.
+  intros Hi. induction fuel as [|f IH]; intros cap Hc Hpos; cbn [inflate_loop]; rewrite Hi.
+  - change (2 ^ N.of_nat 0) with 1 in Hc. replace (len x <=? cap) with true by lia. reflexivity.
+  - destruct (len x <=? cap) eqn:E; [reflexivity|].
+    change (match zl_inflate L z (2 * cap) with IEnd out => COk out | IBuf => inflate_loop L f z (2 * (2 * cap)) | IOther => CAbort end)
+      with (inflate_loop L (S f) z (2 * cap)).
+    apply IH; [|lia]. rewrite Nnat.Nat2N.inj_succ, N.pow_succ_r' in Hc. lia.
+Qed.
+
+Lemma inflate_cap0_ge n : 1024 <= inflate_cap0 n.
+Proof. unfold inflate_cap0. pose proof (N.mod_le (4 * n) 1024 ltac:(lia)). lia. Qed.
+
+Theorem wrapper_roundtrip alg level x s :
+  len x < 2 ^ 64 -> (alg = COMP_ZSTD -> zstd_bound (len x) <= INT_MAX) ->
+  wrapper_compress_level L alg level x = COk s -> wrapper_decompress L alg s = COk x.
+Proof.
+  intros Hx Hzs. unfold wrapper_compress_level, wrapper_decompress.
+  destruct (alg =? COMP_SNAPPY) eqn:E1.
+  { unfold compress_snappy, decompress_snappy. destruct (snappy_c L x _) as [z|] eqn:Ec; [|discriminate].
+    intros H; inversion H; subst s. destruct (snd_snappy L Hs _ _ _ Ec) as [H1 H2]. rewrite H1, H2. reflexivity. }
+  destruct (alg =? COMP_ZLIB) eqn:E2.
+  { unfold compress_zlib, decompress_zlib. destruct (negb (zl_init_ok L _)); [discriminate|].
+    destruct (zl_deflate L x _ _) as [z|] eqn:Ec; [|discriminate]. destruct (zl_end_ok L); [|discriminate].
+    intros H; inversion H; subst s.
+    apply (inflate_loop_ok x z (snd_zlib L Hs _ _ _ _ Ec) 63).
+    - pose proof (inflate_cap0_ge (len z)). change (2 ^ N.of_nat 63) with 9223372036854775808.
+      change (2 ^ 64) with 18446744073709551616 in Hx. nia.
+    - pose proof (inflate_cap0_ge (len z)). lia. }
+  destruct (alg =? COMP_LZ4) eqn:E3.
+  { cbn [orb]. unfold compress_lz4. destruct (INT_MAX <? len x) eqn:Ei; [discriminate|].
+    destruct (lz4_c L x _) as [z|] eqn:Ec; [|discriminate]. intros H; inversion H; subst s.
+    destruct (snd_lz4 L Hs _ _ _ Ec) as [H1 H2]. apply lz4_frame_roundtrip; [lia|exact H1|exact H2]. }
+  destruct (alg =? COMP_LZ4HC) eqn:E4.
+  { cbn [orb]. unfold compress_lz4hc. destruct (INT_MAX <? len x) eqn:Ei; [discriminate|].
+    destruct (lz4hc_c L x _ _) as [z|] eqn:Ec; [|discriminate]. intros H; inversion H; subst s.
+    destruct (snd_lz4hc L Hs _ _ _ _ Ec) as [H1 H2]. apply lz4_frame_roundtrip; [lia|exact H1|exact H2]. }
+  cbn [orb]. destruct (alg =? COMP_ZSTD) eqn:E5; [|discriminate].
+  unfold compress_zstd, decompress_zstd. destruct (INT_MAX <? len x) eqn:Ei; [discriminate|].
+  destruct (zstd_c L x _ _) as [z|] eqn:Ec; [|discriminate]. intros H; inversion H; subst s.
+  destruct (snd_zstd L Hs _ _ _ _ Ec) as (H1 & H2 & H3).
+  apply N.eqb_eq in E5. pose proof (zstd_capacity_le _ (Hzs E5)) as Hcap.
+  replace (INT_MAX <? len z) with false by lia. rewrite H2, H3. reflexivity.
+Qed.
+
+(* ---- completeness: with the libraries' documented guarantees the compression wrappers neither
+   fail nor abort on inputs every library accepts, for EVERY requested level ----------------- *)
+Hypothesis Hc : libs_complete L.
+
+Theorem wrapper_compress_succeeds alg level x :
+  In alg [COMP_SNAPPY; COMP_ZLIB; COMP_LZ4; COMP_LZ4HC; COMP_ZSTD] -> len x <= LZ4_MAX_INPUT_SIZE ->
+  exists s, wrapper_compress_level L alg level x = COk s.
+Proof.
+  intros Hin Hx. unfold wrapper_compress_level.
+  assert (Hi : (INT_MAX <? len x) = false) by (unfold LZ4_MAX_INPUT_SIZE, INT_MAX in *; lia).
+  cbn [In] in Hin. destruct Hin as [<-|[<-|[<-|[<-|[<-|[]]]]]]; cbn [N.eqb Pos.eqb COMP_SNAPPY COMP_ZLIB COMP_LZ4 COMP_LZ4HC COMP_ZSTD].
+  - unfold compress_snappy. destruct (snappy_c L x _) as [z|] eqn:E; [eexists; reflexivity|].
+    exfalso. exact (cpl_snappy L Hc x _ (N.le_refl _) E).
+  - unfold compress_zlib. pose proof (zlib_level_range level) as Hl.
+    rewrite (cpl_zl_init L Hc _ Hl). cbn [negb].
+    destruct (zl_deflate L x _ _) as [z|] eqn:E; [|exfalso; exact (cpl_zl L Hc x _ _ Hl (N.le_refl _) E)].
+    rewrite (cpl_zl_end L Hc). eexists; reflexivity.
+  - unfold compress_lz4. rewrite Hi. destruct (lz4_c L x _) as [z|] eqn:E; [eexists; reflexivity|].
+    exfalso. exact (cpl_lz4 L Hc x _ Hx (N.le_refl _) E).
+  - unfold compress_lz4hc. rewrite Hi. destruct (lz4hc_c L x _ _) as [z|] eqn:E; [eexists; reflexivity|].
+    exfalso. exact (cpl_lz4hc L Hc x _ _ Hx (N.le_refl _) E).
+  - unfold compress_zstd. rewrite Hi. destruct (zstd_c L x _ _) as [z|] eqn:E; [eexists; reflexivity|].
+    exfalso. exact (cpl_zstd L Hc x _ _ (zstd_level_range _ _ level (cpl_zstd_levels L Hc)) (zstd_capacity_ge _) E).
+Qed.
+
+(* no input, level or algorithm makes a compression wrapper abort *)
+Theorem wrapper_compress_never_aborts alg level x : wrapper_compress_level L alg level x <> CAbort.
+Proof.
+  unfold wrapper_compress_level.
+  destruct (alg =? COMP_SNAPPY). { unfold compress_snappy. destruct (snappy_c L x _); discriminate. }
+  destruct (alg =? COMP_ZLIB).
+  { unfold compress_zlib. pose proof (zlib_level_range level) as Hl. rewrite (cpl_zl_init L Hc _ Hl). cbn [negb].
+    destruct (zl_deflate L x _ _) as [z|] eqn:E; [|exfalso; exact (cpl_zl L Hc x _ _ Hl (N.le_refl _) E)].
+    destruct (zl_end_ok L); discriminate. }
+  destruct (alg =? COMP_LZ4). { unfold compress_lz4. destruct (INT_MAX <? len x); [discriminate|]. destruct (lz4_c L x _); discriminate. }
+  destruct (alg =? COMP_LZ4HC). { unfold compress_lz4hc. destruct (INT_MAX <? len x); [discriminate|]. destruct (lz4hc_c L x _ _); discriminate. }
+  destruct (alg =? COMP_ZSTD); [|discriminate].
+  unfold compress_zstd. destruct (INT_MAX <? len x); [discriminate|]. destruct (zstd_c L x _ _); discriminate.
+Qed.
+End WrapProofs.
+
+(* the pinned tree sized the zlib destination 2n: below the bound for every short input
+   (deflateBound n >= n + 13 for the default wrapper, zlib.h) - finding F4 *)
+Lemma zlib_2n_too_small n : n < 13 -> 2 * n < n + 13.
+Proof. lia. Qed.
+
+(* ---- the contracts are satisfiable: "store" libraries (output = input when it fits) ------- *)
+Definition store_c (x : bytes) (cap : N) : option bytes := if len x <=? cap then Some x else None.
+Definition store_libs : libs :=
+  mklibs store_c (fun x cap _ => store_c x cap) (fun z cap => if len z =? cap then Some z else None)
+         (-5)%Z 22%Z (fun x cap _ => store_c x cap) (fun z => Some (len z)) (fun z cap => if len z =? cap then Some z else None)
+         store_c (fun z => Some (len z)) (fun z cap => if len z =? cap then Some z else None)
+         (fun l => (-1 <=? l)%Z && (l <=? 9)%Z) (fun _ n => n + 13) (fun x cap _ => store_c x cap) true
+         (fun z c => if len z <=? c then IEnd z else IBuf).
+
+Lemma store_c_some x cap z : store_c x cap = Some z -> z = x /\ len x <= cap.
+Proof. unfold store_c. destruct (len x <=? cap) eqn:E; [|discriminate]. intros H; inversion H; subst. split; [reflexivity|lia]. Qed.
+
+Lemma store_libs_sound : libs_sound store_libs.
+Proof.
+  constructor; cbn [store_libs lz4_c lz4hc_c lz4_d zstd_c zstd_size zstd_d snappy_c snappy_len snappy_d zl_deflate zl_inflate].
+  - intros x cap z H. apply store_c_some in H. destruct H as [-> H]. rewrite N.eqb_refl. split; [exact H|reflexivity].
+  - intros x cap l z H. apply store_c_some in H. destruct H as [-> H]. rewrite N.eqb_refl. split; [exact H|reflexivity].
+  - intros x cap l z H. apply store_c_some in H. destruct H as [-> H]. rewrite N.eqb_refl. repeat split; [exact H].
+  - intros x cap z H. apply store_c_some in H. destruct H as [-> H]. rewrite N.eqb_refl. split; reflexivity.
+  - intros x cap l z H. apply store_c_some in H. destruct H as [-> H]. intros c. reflexivity.
+Qed.
+Lemma store_libs_complete : libs_complete store_libs.
+Proof.
+  constructor; cbn [store_libs lz4_c lz4hc_c zstd_min zstd_max zstd_c snappy_c zl_init_ok zl_bound zl_deflate zl_end_ok]; unfold store_c, LZ4_MAX_INPUT_SIZE.
+  - intros x cap Hx Hb. unfold lz4_bound, LZ4_MAX_INPUT_SIZE in Hb. replace (2113929216 <? len x) with false in Hb by lia.
+    replace (len x <=? cap) with true by lia. discriminate.
+  - intros x cap l Hx Hb. unfold lz4_bound, LZ4_MAX_INPUT_SIZE in Hb. replace (2113929216 <? len x) with false in Hb by lia.
+    replace (len x <=? cap) with true by lia. discriminate.
+  - lia.
+  - intros x cap l _ Hb. unfold zstd_bound in Hb. replace (len x <=? cap) with true by lia. discriminate.
+  - intros x cap Hb. unfold snappy_bound in Hb. replace (len x <=? cap) with true by lia. discriminate.
+  - intros l Hl. lia.
+  - intros x cap l _ Hb. replace (len x <=? cap) with true by lia. discriminate.
+  - reflexivity.
+Qed.
